@@ -6,11 +6,21 @@
   and every limit ≥ 104. Limits below 104 bytes (that cannot hold an empty listing) are raised by the code to
   the size of one maximal entry, so such a reply may exceed the client's number: known finding
   C26/reply-exceeds-tiny-count (pinned by the repository's tests).
+  Since the fifth session the statements reach the handlers and the wire without a cold-cache hypothesis: under the
+  directory-cache invariant `DcSup` (Props.C02, kept by every request) every NFS3_OK READDIR page, from any cookie, is
+  the slice of the backend's listing that starts at the cookie (`readdir_page_is_a_slice_of_the_backend`), a walk that
+  follows the cookies through real handler calls has always received a prefix of that listing and, once a reply says
+  eof, all of it exactly once (`cookie_walk_lists_the_directory`), READDIR and READDIRPLUS replies from cookie 0 with
+  eof carry exactly the listing (`readdir_reply_lists_the_directory_warm`, `readdirplus_…_warm`), names strictly
+  increasing. `WalkDemo` and `StaleLinkDemo` are kernel-evaluated histories showing that the premises are met by a
+  real three-page walk over a warm cache, and why the cache invariant is a superset rather than an equality.
 -/
 import Absnfs.ServerDir
 import Absnfs.ServerDirPlus
 import Absnfs.ServerListing
 import Absnfs.ServerDcSup
+import Absnfs.ServerWalk
+import Props.C02
 import Gen.Facts
 open Absnfs Absnfs.Server
 
@@ -222,6 +232,31 @@ theorem readdir_reply_names_increasing (s0 : St) (rs : List Req) (h0 : CInv s0) 
   have hinc := (Fs.sorted_children_increasing (runReqs_cinv s0 rs h0).wf (fsPath n.path)).filter (listable n.path)
   exact ⟨hinc, hinc.nodup⟩
 
+/-- C26 end to end, over real handler calls: after any history, a client that follows the cookies through one
+    directory handle — any count per call, any caller, any time between the calls, whatever the directory cache does in
+    between (fill, expire, evict, be absent) — has at every point received a prefix of the backend's listing of the
+    directory (the listable names in name order), as long as the cookie it has reached; when the last reply says eof
+    it has received the whole listing: every entry exactly once. (`Walk` chains NFS3_OK READDIR replies, each call
+    starting at the cookie the previous one ended on; READDIR itself changes nothing in the backend.) -/
+theorem cookie_walk_lists_the_directory (s0 : St) (rs : List Req) (h0 : CInv s0) (hS0 : DcSup s0) (hd : Nat) (n : Node)
+    (hn : nodeOf (runReqs s0 rs) hd = some n) {s : St} {ck : Nat} {acc : List Bytes} {fin : Bool}
+    (w : Walk (runReqs s0 rs) hd s ck acc fin) :
+    acc = (listing (runReqs s0 rs).fs n.path).take ck ∧ ck = acc.length ∧
+      (fin = true → acc = listing (runReqs s0 rs).fs n.path) := by
+  obtain ⟨_, _, _, _, h1, h2, h3⟩ :=
+    walk_lists_the_directory (runReqs s0 rs) hd n (runReqs_cinv s0 rs h0) (runReqs_dcSup s0 rs h0 hS0) hn w
+  exact ⟨h1, h2, h3⟩
+
+/-- every single page, any cookie: a slice of the backend's listing starting at the cookie; with eof, the rest of it -/
+theorem readdir_page_is_a_slice_of_the_backend (s0 : St) (rs : List Req) (h0 : CInv s0) (hS0 : DcSup s0) (s' : St) (c : Ctx)
+    (args : Bytes) (a : Option Rfc.Fattr) (verf : Bytes) (ents : List Rfc.DirEnt) (eof : Bool) (hd ck : Nat) (r1 r2 : Bytes)
+    (n : Node) (hfh : decFh' (runReqs s0 rs) args = some (hd, r1)) (hck : decU64 r1 = some (ck, r2))
+    (hn : nodeOf (runReqs s0 rs) hd = some n)
+    (h : procReaddir (runReqs s0 rs) c args = (s', .res ⟨0, .readdirOk a verf ents eof⟩)) :
+    ∃ k, ents.map (·.name) = ((listing (runReqs s0 rs).fs n.path).drop ck).take k ∧
+      (eof = true → ents.map (·.name) = (listing (runReqs s0 rs).fs n.path).drop ck) :=
+  procReaddir_page _ s' c args a verf ents eof (runReqs_cinv s0 rs h0) (runReqs_dcSup s0 rs h0 hS0) hd ck r1 r2 n hfh hck hn h
+
 /-- a corollary in membership form: the same call when the directory cache *does* hold a listing (any state reached by any history from a server whose
     directory cache started empty): a reply from cookie 0 answered NFS3_OK with eof names every object the backend has
     directly below the directory whose name the listing loop accepts. -/
@@ -234,5 +269,125 @@ theorem readdir_reply_misses_nothing (s0 : St) (rs : List Req) (h0 : CInv s0) (h
     x ∈ ents.map (·.name) :=
   procReaddir_whole_complete _ s' c args a verf ents (runReqs_cinv s0 rs h0) (runReqs_dcSup s0 rs h0 hS0) hd r1 r2 n
     hfh hck hn h x hl (existsAt_of_lstat hx)
+
+/-! ### non-vacuity of the walk theorem: a three-page walk over a warm directory cache, evaluated by the kernel -/
+def wd_ctx0 : Ctx := { now := 1, uid := 0, gid := 0, aux := [] }
+def wd_mntArgs : Bytes := [0,0,0,1, 47, 0,0,0]
+def wd_rootFh : Bytes := [0,0,0,8, 0,0,0,0,0,0,0,1]
+def wd_sattr0 : Bytes := [0,0,0,0, 0,0,0,0, 0,0,0,0, 0,0,0,0, 0,0,0,0, 0,0,0,0]
+def wd_mkdirArgs (c : UInt8) : Bytes := wd_rootFh ++ [0,0,0,1, c, 0,0,0] ++ wd_sattr0
+def wd_ckBytes (ck : UInt8) : Bytes := [0,0,0,0,0,0,0,ck]
+def wd_tailBytes (cnt : UInt8) : Bytes := [0,0,0,0,0,0,0,0] ++ [0,0,0,cnt]
+def wd_readdirArgs (ck cnt : UInt8) : Bytes := wd_rootFh ++ wd_ckBytes ck ++ wd_tailBytes cnt
+/-- MNT "/", MKDIR b, a, c in the root, then one READDIR of the whole root: the directory cache now holds the listing -/
+def wd_history : List Req := [⟨wd_ctx0, 100005, 3, 1, wd_mntArgs⟩, ⟨wd_ctx0, 100003, 3, 9, wd_mkdirArgs 98⟩, ⟨wd_ctx0, 100003, 3, 9, wd_mkdirArgs 97⟩,
+  ⟨wd_ctx0, 100003, 3, 9, wd_mkdirArgs 99⟩, ⟨wd_ctx0, 100003, 3, 16, wd_readdirArgs 0 255⟩]
+def wd_sW : St := runReqs Props.C02.demoStateDc wd_history
+
+def wd_getA : Outcome → Option Rfc.Fattr | .res ⟨_, .readdirOk a _ _ _⟩ => a | _ => none
+def wd_getV : Outcome → Bytes | .res ⟨_, .readdirOk _ v _ _⟩ => v | _ => []
+def wd_getE : Outcome → List Rfc.DirEnt | .res ⟨_, .readdirOk _ _ e _⟩ => e | _ => []
+def wd_getEof : Outcome → Bool | .res ⟨_, .readdirOk _ _ _ f⟩ => f | _ => false
+def wd_isOk : Outcome → Bool | .res ⟨0, .readdirOk _ _ _ _⟩ => true | _ => false
+theorem wd_ok_shape (o : Outcome) (h : wd_isOk o = true) : o = .res ⟨0, .readdirOk (wd_getA o) (wd_getV o) (wd_getE o) (wd_getEof o)⟩ := by
+  cases o with
+  | res r =>
+    obtain ⟨st, b⟩ := r
+    cases b <;> simp [wd_isOk] at h
+    all_goals (first | (cases st <;> simp at h; rfl) | skip)
+  | _ => simp [wd_isOk] at h
+
+/-- three calls with count 140 (room for one entry each), each from the cookie the previous one ended on -/
+def wd_p1 := procReaddir wd_sW wd_ctx0 (wd_readdirArgs 0 140)
+def wd_p2 := procReaddir wd_p1.1 wd_ctx0 (wd_readdirArgs 1 140)
+def wd_p3 := procReaddir wd_p2.1 wd_ctx0 (wd_readdirArgs 2 140)
+
+/-- the cache is wd_warm when the walk starts: the listing of "/" is in it -/
+theorem wd_warm : (wd_sW.dc.map fun c => c.entries.map fun e => (e.key, e.val)) = some [([47], some [[97], [98], [99]])] := by
+  decide +kernel
+theorem wd_page1 : (wd_isOk wd_p1.2, (wd_getE wd_p1.2).map (·.name), wd_getEof wd_p1.2) = (true, [[97]], false) := by decide +kernel
+theorem wd_page2 : (wd_isOk wd_p2.2, (wd_getE wd_p2.2).map (·.name), wd_getEof wd_p2.2) = (true, [[98]], false) := by decide +kernel
+theorem wd_page3 : (wd_isOk wd_p3.2, (wd_getE wd_p3.2).map (·.name), wd_getEof wd_p3.2) = (true, [[99]], true) := by decide +kernel
+
+theorem wd_step (s : St) (ck cnt : UInt8) (h : wd_isOk (procReaddir s wd_ctx0 (wd_readdirArgs ck cnt)).2 = true) :
+    procReaddir s wd_ctx0 (wd_readdirArgs ck cnt) = ((procReaddir s wd_ctx0 (wd_readdirArgs ck cnt)).1,
+      .res ⟨0, .readdirOk (wd_getA (procReaddir s wd_ctx0 (wd_readdirArgs ck cnt)).2) (wd_getV (procReaddir s wd_ctx0 (wd_readdirArgs ck cnt)).2)
+        (wd_getE (procReaddir s wd_ctx0 (wd_readdirArgs ck cnt)).2) (wd_getEof (procReaddir s wd_ctx0 (wd_readdirArgs ck cnt)).2)⟩) := by
+  have := wd_ok_shape _ h
+  exact Prod.ext rfl this
+
+/-- the walk exists: its premises (handle and cookie decode in each state reached, each call is answered NFS3_OK) hold -/
+theorem wd_the_walk : Walk wd_sW 1 wd_p3.1 3 [[97], [98], [99]] true := by
+  have w1 : Walk wd_sW 1 wd_p1.1 1 [[97]] false := by
+    have h := Walk.page (s0 := wd_sW) (hd := 1) wd_ctx0 (wd_readdirArgs 0 140) (wd_ckBytes 0 ++ wd_tailBytes 140) (wd_tailBytes 140) _ _ _ _ Walk.start
+      (by decide +kernel) (by decide +kernel) (wd_step wd_sW 0 140 (congrArg (·.1) wd_page1))
+    have h' : Walk wd_sW 1 wd_p1.1 (0 + (wd_getE wd_p1.2).length) ([] ++ (wd_getE wd_p1.2).map (·.name)) (wd_getEof wd_p1.2) := h
+    have nm : (wd_getE wd_p1.2).map (·.name) = [[97]] := congrArg (fun x => x.2.1) wd_page1
+    have e : (wd_getE wd_p1.2).length = 1 := by have := congrArg List.length nm; simpa using this
+    have f : wd_getEof wd_p1.2 = false := congrArg (fun x => x.2.2) wd_page1
+    rw [e, nm, f] at h'
+    exact h'
+  have w2 : Walk wd_sW 1 wd_p2.1 2 [[97], [98]] false := by
+    have h := Walk.page (s0 := wd_sW) (hd := 1) wd_ctx0 (wd_readdirArgs 1 140) (wd_ckBytes 1 ++ wd_tailBytes 140) (wd_tailBytes 140) _ _ _ _ w1
+      (by decide +kernel) (by decide +kernel) (wd_step wd_p1.1 1 140 (congrArg (·.1) wd_page2))
+    have h' : Walk wd_sW 1 wd_p2.1 (1 + (wd_getE wd_p2.2).length) ([[97]] ++ (wd_getE wd_p2.2).map (·.name)) (wd_getEof wd_p2.2) := h
+    have nm : (wd_getE wd_p2.2).map (·.name) = [[98]] := congrArg (fun x => x.2.1) wd_page2
+    have e : (wd_getE wd_p2.2).length = 1 := by have := congrArg List.length nm; simpa using this
+    have f : wd_getEof wd_p2.2 = false := congrArg (fun x => x.2.2) wd_page2
+    rw [e, nm, f] at h'
+    exact h'
+  have h := Walk.page (s0 := wd_sW) (hd := 1) wd_ctx0 (wd_readdirArgs 2 140) (wd_ckBytes 2 ++ wd_tailBytes 140) (wd_tailBytes 140) _ _ _ _ w2
+    (by decide +kernel) (by decide +kernel) (wd_step wd_p2.1 2 140 (congrArg (·.1) wd_page3))
+  have h' : Walk wd_sW 1 wd_p3.1 (2 + (wd_getE wd_p3.2).length) ([[97], [98]] ++ (wd_getE wd_p3.2).map (·.name)) (wd_getEof wd_p3.2) := h
+  have nm : (wd_getE wd_p3.2).map (·.name) = [[99]] := congrArg (fun x => x.2.1) wd_page3
+  have e : (wd_getE wd_p3.2).length = 1 := by have := congrArg List.length nm; simpa using this
+  have f : wd_getEof wd_p3.2 = true := congrArg (fun x => x.2.2) wd_page3
+  rw [e, nm, f] at h'
+  exact h'
+
+/-- … and so the theorem applies: what the three replies carried is the backend's listing of the root, obtained from the
+    theorem (not by evaluating the listing) -/
+example : ∃ n, nodeOf wd_sW 1 = some n ∧ [[97], [98], [99]] = listing wd_sW.fs n.path := by
+  have hn : (nodeOf wd_sW 1).isSome = true := by decide +kernel
+  obtain ⟨n, hn⟩ := Option.isSome_iff_exists.mp hn
+  refine ⟨n, hn, ?_⟩
+  have := cookie_walk_lists_the_directory Props.C02.demoStateDc wd_history Props.C02.demoStateDc_ok.1 Props.C02.demoStateDc_ok.2 1 n hn wd_the_walk
+  exact this.2.2 rfl
+
+
+/-! ### why the invariant is a superset and not an equality (DESIGN §11.7), as a kernel-evaluated sl_history
+
+MNT "/"; MKDIR k (handle 2); MKDIR o; MKDIR o/x; RMDIR k; SYMLINK l -> "o"; RENAME l -> k; READDIR through the old
+handle 2 of /k. READDIR decides "is a directory" from the handle's snapshot and the backend's Readdir follows the final
+link, so the listing of /o is stored under the key /k. Afterwards the cache holds `/k ↦ [x]` although the backend has
+nothing below /k: "cached listing = backend listing of the key" is false in a reachable state. The sl_reply was still the
+backend's (empty) listing, because every cached name is looked up again — the statement the theorems above make. -/
+def sl_fhOf (h : UInt8) : Bytes := [0,0,0,8, 0,0,0,0,0,0,0,h]
+def sl_nm (c : UInt8) : Bytes := [0,0,0,1, c, 0,0,0]
+def sl_history : List Req := [⟨wd_ctx0, 100005, 3, 1, wd_mntArgs⟩,
+  ⟨wd_ctx0, 100003, 3, 9, sl_fhOf 1 ++ sl_nm 107 ++ wd_sattr0⟩,                  -- MKDIR /k      (handle 2)
+  ⟨wd_ctx0, 100003, 3, 9, sl_fhOf 1 ++ sl_nm 111 ++ wd_sattr0⟩,                  -- MKDIR /o      (handle 3)
+  ⟨wd_ctx0, 100003, 3, 9, sl_fhOf 3 ++ sl_nm 120 ++ wd_sattr0⟩,                  -- MKDIR /o/x
+  ⟨wd_ctx0, 100003, 3, 13, sl_fhOf 1 ++ sl_nm 107⟩,                           -- RMDIR /k
+  ⟨wd_ctx0, 100003, 3, 10, sl_fhOf 1 ++ sl_nm 108 ++ wd_sattr0 ++ sl_nm 111⟩,       -- SYMLINK /l -> "o"
+  ⟨wd_ctx0, 100003, 3, 14, sl_fhOf 1 ++ sl_nm 108 ++ sl_fhOf 1 ++ sl_nm 107⟩]       -- RENAME /l -> /k
+def sl_sK : St := runReqs Props.C02.demoStateDc sl_history
+def sl_reply := procReaddir sl_sK wd_ctx0 (sl_fhOf 2 ++ wd_ckBytes 0 ++ wd_tailBytes 255)
+
+/-- the READDIR through the stale handle is answered NFS3_OK with an empty listing and eof — the backend's listing of /k -/
+theorem sl_reply_is_backend : (wd_isOk sl_reply.2, (wd_getE sl_reply.2).map (·.name), wd_getEof sl_reply.2) = (true, [], true) ∧
+    listing sl_sK.fs [47, 107] = [] := by decide +kernel
+
+/-- … and leaves the listing of /o in the cache under the key /k: a strict superset of what the backend has below /k -/
+theorem sl_cache_holds_a_strict_superset :
+    (sl_reply.1.dc.map fun c => c.entries.map fun e => (e.key, e.val)) = some [([47, 107], some [[120]])] ∧
+    listing sl_reply.1.fs [47, 107] = [] := by decide +kernel
+
+/-- the state is reachable and satisfies both invariants (so the theorems of this file and of C02 apply to it) -/
+theorem sl_invariants_hold : CInv sl_reply.1 ∧ DcSup sl_reply.1 := by
+  have hI := runReqs_cinv Props.C02.demoStateDc sl_history Props.C02.demoStateDc_ok.1
+  have hS := runReqs_dcSup Props.C02.demoStateDc sl_history Props.C02.demoStateDc_ok.1 Props.C02.demoStateDc_ok.2
+  exact ⟨procReaddir_cinv sl_sK wd_ctx0 _ hI, procReaddir_dcSup sl_sK wd_ctx0 _ hI hS⟩
+
 
 end Props.C26
